@@ -324,7 +324,12 @@ impl<T> OneShotShared<T> {
               return Poll::Ready(Err(RecvError::Disconnected));
             }
             Err(TryRecvError::Empty) => {
-              // Still empty
+              // Still empty. try_recv does not look at the sender count once the value was taken,
+              // and the last sender may have left (and called wake) after the check above but
+              // before the waker was registered: re-check it now that the waker is in place.
+              if self.sender_count.load(Ordering::Acquire) == 0 {
+                continue;
+              }
               // Waker is correctly registered for the current "empty" state.
               return Poll::Pending;
             }
